@@ -380,6 +380,31 @@ def m_slice_get(E, st, fid, t, args, dest_ty):
     mut = t['callee']['name'].endswith('_mut')
     iv = args[1]
     s = _slice_of(E, st, args[0])
+    if s is not None and iv[0] == 'adt' and iv[1] in ('core::ops::range::RangeFrom', 'core::ops::range::RangeTo',
+                                                      'core::ops::range::Range') and all(x[0] == 'int' for x in iv[3]):
+        # slice.get(a..b) over slot storage: Some(sub-slice) iff the bounds are in order and within the slice
+        mid, lo, hi, _ = s
+        off = (lambda k: k if (isinstance(lo, int) and lo == 0) else E.add_terms(st, lo, k))
+        if iv[1].endswith('RangeFrom'):
+            nlo, nhi = off(iv[3][0][1]), hi
+        elif iv[1].endswith('RangeTo'):
+            nlo, nhi = lo, off(iv[3][0][1])
+        else:
+            nlo, nhi = off(iv[3][0][1]), off(iv[3][1][1])
+        out = []
+        a = st.fork()
+        a.zone.add_le(lo, nlo)
+        a.zone.add_le(nlo, nhi)
+        a.zone.add_le(nhi, hi)
+        if a.zone.sat:
+            a.log('slice', mid, nlo, nhi)
+            out.append(('ret', a, some(('ref', mut, ('slice', mid, nlo, nhi)))))
+        for cond in ((nhi, nlo), (hi, nhi)):
+            b = st.fork()
+            b.zone.add_lt(cond[0], cond[1])
+            if b.zone.sat:
+                out.append(('ret', b, NONE))
+        return out
     if s is None or iv[0] != 'int':
         tr = _tracked_oslice(E, st, args[0]) if iv[0] == 'int' else None
         if tr is None:
